@@ -26,7 +26,7 @@ CONSTANTS
 INVARIANTS %(inv)s
 CHECK_DEADLOCK FALSE
 """
-LIB_INV = "TypeOK CarriesConfigured LimitsEnforced HandlersTransparent NoOtherLimit ConcurrencyBounded IdlePerHostKept"
+LIB_INV = "TypeOK CarriesConfigured LimitsEnforced HandlersTransparent ReuseTransparent BodyNotLimited NoOtherLimit ConcurrencyBounded IdlePerHostKept"
 
 
 def cfg(spec, n, bug=False, extra="none", late=False, inv=LIB_INV, hdev="none"):
@@ -96,12 +96,17 @@ def run(ctx):
         return
     ctx.cover("main", states=mm.distinct, transitions=mm.generated)
     # non-vacuity: every named deviation violates the property it is about
-    for name, kw, spec, inv in (("SelfAssign", dict(bug=True), "Spec", "CarriesConfigured"),
+    deviations = (("SelfAssign", dict(bug=True), "Spec", "CarriesConfigured"),
                                 ("ExtraLimit=maxidletotal", dict(extra="maxidletotal"), "Spec", "IdlePerHostKept"),
                                 ("ExtraLimit=maxconns", dict(extra="maxconns"), "Spec", "ConcurrencyBounded"),
                                 ("HandlerDeviation=gzipdelay", dict(hdev="gzipdelay"), "Spec", "HandlersTransparent"),
                                 ("HandlerDeviation=expectwait", dict(hdev="expectwait"), "Spec", "HandlersTransparent"),
-                                ("LateSetConfig", dict(late=True), "MainSpec", "MainCarries")):
+                                ("HandlerDeviation=retryreused", dict(hdev="retryreused"), "Spec", "ReuseTransparent"),
+                                ("HandlerDeviation=bodydeadline", dict(hdev="bodydeadline"), "Spec", "BodyNotLimited"),
+                                ("LateSetConfig", dict(late=True), "MainSpec", "MainCarries"))
+    if not ctx.thorough:    # quick: three of them, rotating with the seed (each costs a JVM start)
+        deviations = tuple(deviations[(ctx.seed + i) % len(deviations)] for i in (0, 3, 6))
+    for name, kw, spec, inv in deviations:
         r = ctx.tlc("Transport_MC", cfg_text=cfg(spec, 3, inv=inv, **kw), workers=1, timeout=300)
         if r.violated != inv:
             ctx.inconclusive("non-vacuity: the deviation %s should violate %s on the model but TLC reports %r %s"
